@@ -61,9 +61,28 @@ def model_sat(cases):
     return res
 
 
+def scale_bounds(f, k):
+    if f[0] == "tb1":
+        return ("tb1", f[1], f[2] * k, f[3] * k, scale_bounds(f[4], k))
+    if f[0] == "tb2":
+        return ("tb2", f[1], f[2] * k, f[3] * k, scale_bounds(f[4], k), scale_bounds(f[5], k))
+    return F.rebuild(f, [scale_bounds(c, k) for c in F.children(f)])
+
+
 def impl_values(monitor, f, data, n):
     text = "out = " + F.to_text(f)
     vs = sorted(data)
+    if monitor == "offd-reconf":
+        # the object is reused after a change of the sampling period: bounds in seconds, period 1 s, then 500 ms
+        def go():
+            spec = impl.make_spec("offd", text, vs)
+            spec.parse()
+            ds = {"time": list(range(n))}
+            ds.update({v: list(data[v]) for v in vs})
+            spec.evaluate(ds)
+            spec.set_sampling_period(500, "ms", 0.1)
+            return [p[1] for p in spec.evaluate(ds)]
+        return text, impl.guarded(go)
     if monitor == "offd":
         o = impl.eval_offline_discrete(text, vs, data, n)
         return text, (o if o[0] != "ok" else ("ok", [p[1] for p in o[1]]))
@@ -96,7 +115,7 @@ def check_case(ctx, monitor, f, data, n, simple, rng):
     if any(v != v for v in vals):
         ctx.skipped_undef += 1
         return None
-    sats = model_sat([(f, data, n)])[0]
+    sats = model_sat([(scale_bounds(f, 2) if monitor == "offd-reconf" else f, data, n)])[0]
     rep["model_sat"] = sats
     if monitor == "past":
         # update #i of the pastified monitor speaks about time i - h (h the horizon); the first h outputs are not verdicts
@@ -153,9 +172,9 @@ def check_case(ctx, monitor, f, data, n, simple, rng):
 
 def explore(ctx, rng, count):
     for _ in range(count):
-        monitor = rng.choice(["offd", "offd", "ond", "past", "past"])
+        monitor = rng.choice(["offd", "offd", "ond", "past", "past", "offd-reconf"])
         g = F.Gen(rng, VARS, {"ond": ALLOW_ON, "past": ALLOW_PAST}.get(monitor, ALLOW_OFF), max_bound=rng.choice([1, 2, 3, 4]))
-        simple = rng.random() < 0.5 and monitor != "past"
+        simple = rng.random() < 0.5 and monitor in ("offd", "ond")
         d = rng.choice([1, 2, 3, 4])
         f = simple_formula(rng, g, d) if simple else g.formula(d)
         if monitor == "past" and rng.random() < 0.5:
